@@ -2,7 +2,11 @@ package main
 
 import (
 	"fmt"
+	"go/ast"
+	"go/types"
 	"os"
+	"sort"
+	"strings"
 
 	"golang.org/x/tools/go/ssa"
 )
@@ -113,4 +117,132 @@ func init() {
 			}
 		}
 	}
+}
+
+// dumpRenames: debugging aid for anchors.go.
+func dumpRenames() {
+	p, _, err := loadOnce(RepoDir(), "amd64", nil)
+	if err != nil {
+		fmt.Println(err)
+		return
+	}
+	bl, _ := loadBaseline()
+	base := bl.Arch["amd64"]
+	alias, log, missing := resolveRenames(p.Pkgs, base)
+	for _, l := range log {
+		fmt.Println("RENAMED", l)
+	}
+	fmt.Println("MISSING", missing)
+	cur := describeEntities(p.Pkgs, alias, func(k string) bool { _, ok := base[k]; return ok })
+	for k, e := range cur {
+		if _, ok := base[k]; !ok {
+			fmt.Println("FRESH", k, e.Sig, e.Feats)
+		}
+	}
+	for _, m := range missing {
+		fmt.Println("BASE", m, base[m].Sig, base[m].Feats)
+	}
+}
+
+func init() { extraDumps["renames"] = func(p *Prog) { dumpRenames() } }
+
+// devRename is a maintenance helper used to produce behaviour-preserving
+// rename patches for the checker's self-test (neutral/*.patch): it rewrites, in
+// place, the files of the tree at GSVERIF_REPO. Specs:
+//   var:<pkgrel>::<[Recv.]Func>:<old>=<new>   parameters / receivers / locals of one function
+func devRename(specs []string) int {
+	p, _, err := loadOnce(RepoDir(), "amd64", nil)
+	if err != nil {
+		fmt.Println(err)
+		return 2
+	}
+	type edit struct {
+		off, n int
+		s      string
+	}
+	edits := map[string][]edit{}
+	for _, sp := range specs {
+		kindRest := strings.SplitN(sp, ":", 2)
+		if len(kindRest) != 2 || kindRest[0] != "var" {
+			fmt.Println("bad spec", sp)
+			return 2
+		}
+		i := strings.LastIndex(kindRest[1], ":")
+		fnKey, on := kindRest[1][:i], strings.SplitN(kindRest[1][i+1:], "=", 2)
+		pkgFn := strings.SplitN(fnKey, "::", 2)
+		pk := p.Pkg(pkgFn[0])
+		if pk == nil {
+			fmt.Println("no package", pkgFn[0])
+			return 2
+		}
+		found := false
+		for _, file := range pk.Syntax {
+			for _, d := range file.Decls {
+				fd, ok := d.(*ast.FuncDecl)
+				if !ok {
+					continue
+				}
+				name := fd.Name.Name
+				if fd.Recv != nil && len(fd.Recv.List) > 0 {
+					t := fd.Recv.List[0].Type
+					if st, ok := t.(*ast.StarExpr); ok {
+						t = st.X
+					}
+					if id, ok := t.(*ast.Ident); ok {
+						name = id.Name + "." + name
+					}
+				}
+				if name != pkgFn[1] {
+					continue
+				}
+				objs := map[types.Object]bool{}
+				ast.Inspect(fd, func(n ast.Node) bool {
+					if id, ok := n.(*ast.Ident); ok && id.Name == on[0] {
+						if o := pk.TypesInfo.Defs[id]; o != nil {
+							if _, isVar := o.(*types.Var); isVar {
+								objs[o] = true
+							}
+						}
+					}
+					return true
+				})
+				ast.Inspect(fd, func(n ast.Node) bool {
+					if id, ok := n.(*ast.Ident); ok && id.Name == on[0] {
+						o := pk.TypesInfo.Defs[id]
+						if o == nil {
+							o = pk.TypesInfo.Uses[id]
+						}
+						if objs[o] {
+							pos := p.Fset.Position(id.Pos())
+							edits[pos.Filename] = append(edits[pos.Filename], edit{pos.Offset, len(on[0]), on[1]})
+							found = true
+						}
+					}
+					return true
+				})
+			}
+		}
+		if !found {
+			fmt.Println("nothing renamed for", sp)
+			return 2
+		}
+	}
+	for fn, es := range edits {
+		src, err := os.ReadFile(fn)
+		if err != nil {
+			fmt.Println(err)
+			return 2
+		}
+		sort.Slice(es, func(i, j int) bool { return es[i].off > es[j].off })
+		last := -1
+		for _, e := range es {
+			if e.off == last {
+				continue
+			}
+			last = e.off
+			src = append(src[:e.off:e.off], append([]byte(e.s), src[e.off+e.n:]...)...)
+		}
+		os.WriteFile(fn, src, 0o644)
+	}
+	return 0
 }
